@@ -16,8 +16,9 @@ RMAX = 7 * 86400  # expected build constants (checked against what the driver lo
 def mc(module, cfg, pid, workers, timeout, tag=None):
     res = lib.tlc(module, cfg=cfg, pid=pid, workers=workers, timeout=timeout, tag=tag or cfg)
     lib.tlc_must_pass(res, f"{cfg}: exhaustive exploration of L2 against L1")
-    cex = [t[1:] for t in res["tuples"] if t[0] == "CEX"]
-    beh = [t[1:] for t in res["tuples"] if t[0] == "BEH"]
+    tups = parse_tuples(res["out"])
+    cex = [t[1:] for t in tups if t[0] == "CEX"]
+    beh = [t[1:] for t in tups if t[0] == "BEH"]
     return res, cex, beh
 
 
@@ -244,6 +245,31 @@ def hist_replay(out, replay_path):
     return out
 
 
+def parse_tuples(out):
+    """All PrintT'ed tuples of a TLC output, including those TLC wraps over several lines (it breaks
+    tuples longer than 80 columns, which lib.tlc's one-line pattern does not see)."""
+    import re
+    res = []
+    buf = None
+    for line in out.splitlines():
+        s = line.strip()
+        if buf is None:
+            if s.startswith("<<") and re.match(r'^<<\s*"[A-Z0-9]+"', s):
+                buf = s
+            else:
+                continue
+        else:
+            buf += " " + s
+        if buf.endswith(">>"):
+            m = re.match(r'^<<\s*"([A-Z0-9]+)"(.*)>>$', buf)
+            if m:
+                res.append([m.group(1)] + lib._parse_tuple_fields(m.group(2)))
+            buf = None
+        elif len(buf) > 4000:
+            buf = None
+    return res
+
+
 def validate_sharded(module, path, pid, wd, shard=12000, timeout=1500):
     """TLC holds the whole trace in memory: validate long observation files in shards that start at a
     history boundary. Returns a merged result with line numbers relative to the whole file."""
@@ -267,6 +293,9 @@ def validate_sharded(module, path, pid, wd, shard=12000, timeout=1500):
             with open(sp, "w") as f:
                 f.write("\n".join(lines[a:b]) + "\n")
         tv = lib.trace_validate(module, sp, pid, timeout=timeout, tag=f"{module}-{k}")
+        tups = parse_tuples(tv["out"])
+        tv["l1fail"] = [t for t in tups if t[0] == "L1FAIL"]
+        tv["drift"] = [t for t in tups if t[0] == "L2DRIFT"]
         for t in tv["l1fail"]:
             merged["l1fail"].append([t[0], t[1], t[2] + a, t[3]])
         for t in tv["drift"]:
